@@ -204,6 +204,10 @@ def run_one(seed, preset=None, tier="quick", want_case=False):
             expect_nothing_ran = {"special:1": "no operation in the document", "special:3": "operation name is a fragment's name",
                                   "special:4": "unknown operation name for an anonymous operation", "special:5": "duplicated operation name",
                                   "special:6": "only a type-system definition", "special:7": "directive without its required argument"}[detail]
+    elif kind == "special" and syntactically_ok and detail == "special:2" and (
+            (text.startswith("mutation") and not case.schema.mutation) or (text.startswith("subscription") and not case.schema.subscription)):
+        # the schema has no root type for this kind of operation: there is nothing to execute it against
+        expect_nothing_ran = "the schema has no root type for the operation"
     elif kind == "opname" and syntactically_ok:
         try:
             truthy = bool(op_name)
